@@ -194,15 +194,13 @@ theorem matcherOf_HashOK (S : Search) (names : List Bytes) (pm : Matcher)
     · split at h
       · cases h; exact absurd rfl hpos
       · split at h
-        · cases h
-        · split at h
-          · cases h; exact absurd rfl hpos
-          · next hd =>
+        · cases h; exact absurd rfl hpos
+        · next hd =>
             cases h
             have hnd := countDups_zero (Decidable.not_not.mp hd)
             simp only [List.any_eq_true, Bool.or_eq_true, not_exists, not_and, not_or,
               Bool.not_eq_true] at hguard
-            refine ⟨fun n hn => (hguard n hn).1, fun n hn => (hguard n hn).2, ?_, ?_, rfl, ?_, ?_⟩
+            refine ⟨fun n hn => (hguard n hn).1.1, fun n hn => (hguard n hn).1.2, ?_, ?_, rfl, ?_, ?_⟩
             · simp [keysOf]
             · simp [specsOf]
             · intro i hi
@@ -211,7 +209,7 @@ theorem matcherOf_HashOK (S : Search) (names : List Bytes) (pm : Matcher)
               exact findRemap_get _ _ _ hnd i hi
             · intro x hx
               simp only [findRemap] at hx
-              next hempty _ _ =>
+              next hempty _ =>
               have hne : names ≠ [] := by
                 intro h0; subst h0; simp at hempty
               have hpos : 0 < names.length := List.length_pos_iff.mpr hne
